@@ -200,6 +200,9 @@ func (ps *PartSet) AddPart(part *Part, verify bool) (bool, error) {
 	defer ps.mtx.Unlock()
 
 	// Invalid part index
+	if part.Index < 0 {
+		return false, ErrPartSetUnexpectedIndex
+	}
 	if part.Index >= ps.total {
 		return false, ErrPartSetUnexpectedIndex
 	}
